@@ -30,6 +30,8 @@ type inputVar struct {
 	Name string // user-visible name
 	Smt  string // quoted SMT identifier
 	Sort Sort
+	Wide bool // numeric input with a large domain (perturbed when looking for diverse models)
+	T    *Term
 }
 
 type Candidate struct {
@@ -63,6 +65,7 @@ type pathCtx struct {
 	checked  map[string]int // assert id -> times checked on this path
 	cands    []Candidate
 	branches int
+	wrapped  int
 	goStmts  int
 
 	// clock model
@@ -140,7 +143,7 @@ func (p *pathCtx) input(name string, s Sort) (*Term, bool) {
 	p.solver.Declare(q, s)
 	t := Var(q, s)
 	p.inputSet[name] = t
-	p.inputs = append(p.inputs, inputVar{name, q, s})
+	p.inputs = append(p.inputs, inputVar{Name: name, Smt: q, Sort: s, T: t})
 	return t, true
 }
 
@@ -149,6 +152,9 @@ func (p *pathCtx) inputInt(name string, lo, hi *Term) *Term {
 	if isNew {
 		p.solver.Assert(mk(SBool, "and", mk(SBool, "<=", lo, t), mk(SBool, "<=", t, hi)))
 		t.Lo, t.Hi = lo.Lo, hi.Hi
+		if name != "T0" && (t.Lo == nil || t.Hi == nil || new(big.Rat).Sub(t.Hi, t.Lo).Cmp(big.NewRat(16, 1)) >= 0) {
+			p.inputs[len(p.inputs)-1].Wide = true
+		}
 	}
 	return t
 }
@@ -384,6 +390,60 @@ func (p *pathCtx) findModel(extra *Term) (map[string]interface{}, bool, SatResul
 	return m, false, Sat
 }
 
+// moreModels returns up to n further models of PC ∧ extra in which every wide
+// numeric input differs from its value in the models found so far (a solver's
+// first model tends to sit on a boundary, e.g. an exact float edge, that the
+// native run resolves the other way).
+func (p *pathCtx) moreModels(extra *Term, first map[string]interface{}, n int) []map[string]interface{} {
+	var out []map[string]interface{}
+	prev := []map[string]interface{}{first}
+	for k := 0; k < n; k++ {
+		p.solver.Push()
+		p.solver.Assert(extra)
+		any := false
+		for _, in := range p.inputs {
+			if !in.Wide || in.Sort != SInt {
+				continue
+			}
+			for _, m := range prev {
+				v, ok := m[in.Name]
+				if !ok {
+					continue
+				}
+				var c *Term
+				switch vv := v.(type) {
+				case int64:
+					c = IntC(vv)
+				case string:
+					if b, ok := new(big.Int).SetString(vv, 10); ok {
+						c = BigC(b)
+					}
+				}
+				if c != nil {
+					p.solver.Assert(mk(SBool, "not", mk(SBool, "=", in.T, c)))
+					any = true
+				}
+			}
+		}
+		if !any {
+			p.solver.Pop()
+			break
+		}
+		if p.solver.Check() != Sat {
+			p.solver.Pop()
+			break
+		}
+		m, err := p.model()
+		p.solver.Pop()
+		if err != nil {
+			break
+		}
+		out = append(out, m)
+		prev = append(prev, m)
+	}
+	return out
+}
+
 // checkAssert discharges one assertion instance on this path.
 func (p *pathCtx) checkAssert(id string, c *Term) {
 	p.checked[id]++
@@ -410,6 +470,9 @@ func (p *pathCtx) checkAssert(id string, c *Term) {
 		p.job.noteFailing(id)
 		p.job.tookCandidate(id)
 		p.cands = append(p.cands, Candidate{AssertID: id, Kind: "assert", Model: m, Margin: margin, Path: p.pathString()})
+		for _, m2 := range p.moreModels(Not(c), m, 2) {
+			p.cands = append(p.cands, Candidate{AssertID: id, Kind: "assert", Model: m2, Margin: false, Path: p.pathString()})
+		}
 	case Unknown:
 		p.inconclusive = append(p.inconclusive, "assert "+id+": solver unknown")
 		p.job.noteUnknown()
